@@ -14,7 +14,7 @@ Inductive fld :=
 | FTriedA | FTried1 | FFb | FFb1
 | FPwSent | FPwRep | FPwErr | FMinc | F1pcTs
 | FPcSent | FPcDlv | FPcOkd | FPcFaild | FPcNeg | FPcRep | FPcOk | FPcRb
-| FDead | FTold | FRbTold | FHb | FPlPrim | FPlAny.
+| FDead | FTold | FRbTold | FHb | FPlPrim | FPlAny | FStFb.
 Definition fld_eqb (a b : fld) : bool :=
   match a, b with
   | FCalled, FCalled | FCausal, FCausal | FWm, FWm | FHasm, FHasm | FPrim, FPrim
@@ -22,21 +22,39 @@ Definition fld_eqb (a b : fld) : bool :=
   | FPwSent, FPwSent | FPwRep, FPwRep | FPwErr, FPwErr | FMinc, FMinc | F1pcTs, F1pcTs
   | FPcSent, FPcSent | FPcDlv, FPcDlv | FPcOkd, FPcOkd | FPcFaild, FPcFaild | FPcNeg, FPcNeg
   | FPcRep, FPcRep | FPcOk, FPcOk | FPcRb, FPcRb
-  | FDead, FDead | FTold, FTold | FRbTold, FRbTold | FHb, FHb | FPlPrim, FPlPrim | FPlAny, FPlAny => true
+  | FDead, FDead | FTold, FTold | FRbTold, FRbTold | FHb, FHb | FPlPrim, FPlPrim | FPlAny, FPlAny | FStFb, FStFb => true
   | _, _ => false
   end.
 
 Record crec := { cn : fld -> N;          (* numeric / boolean (0,1) fields *)
                  c_lm : list N;          (* locked (non-cne) mutation keys *)
                  c_all : list N;         (* all mutation keys, cne included *)
-                 c_pwok : list N }.      (* keys covered by a successful prewrite reply *)
-Definition c0 : crec := {| cn := fun _ => 0; c_lm := []; c_all := []; c_pwok := [] |}.
+                 c_pwok : list N;        (* keys covered by a successful prewrite reply *)
+                 c_kl : list (N * N);    (* per-key prewrite accounting: (tag, key), see KSent .. KRep *)
+                 c_lam : list (N * N) }. (* ghost: (key, min-commit ts of the lock) recorded when the key is first locked *)
+Definition c0 : crec := {| cn := fun _ => 0; c_lm := []; c_all := []; c_pwok := []; c_kl := []; c_lam := [] |}.
 Definition setn (c : crec) (f : fld) (v : N) : crec :=
-  {| cn := fun g => if fld_eqb g f then v else cn c g; c_lm := c_lm c; c_all := c_all c; c_pwok := c_pwok c |}.
+  {| cn := fun g => if fld_eqb g f then v else cn c g; c_lm := c_lm c; c_all := c_all c; c_pwok := c_pwok c; c_kl := c_kl c; c_lam := c_lam c |}.
 Definition set_muts (c : crec) (lm al : list N) : crec :=
-  {| cn := cn c; c_lm := lm; c_all := al; c_pwok := c_pwok c |}.
+  {| cn := cn c; c_lm := lm; c_all := al; c_pwok := c_pwok c; c_kl := c_kl c; c_lam := c_lam c |}.
 Definition add_pwok (c : crec) (ks : list N) : crec :=
-  {| cn := cn c; c_lm := c_lm c; c_all := c_all c; c_pwok := ks ++ c_pwok c |}.
+  {| cn := cn c; c_lm := c_lm c; c_all := c_all c; c_pwok := ks ++ c_pwok c; c_kl := c_kl c; c_lam := c_lam c |}.
+(* tags of the per-key prewrite accounting: requests sent / delivered / delivered with a negative
+   result / negative replies received / replies received, each counted once per key of the request *)
+Definition KSent : N := 0. Definition KDlv : N := 1. Definition KNegD : N := 2. Definition KNeg : N := 3. Definition KRep : N := 4.
+Definition add_kl (c : crec) (tag : N) (ks : list N) : crec :=
+  {| cn := cn c; c_lm := c_lm c; c_all := c_all c; c_pwok := c_pwok c; c_kl := map (fun k => (tag, k)) ks ++ c_kl c; c_lam := c_lam c |}.
+Definition add_lam (c : crec) (ks : list N) (m : N) : crec :=
+  {| cn := cn c; c_lm := c_lm c; c_all := c_all c; c_pwok := c_pwok c; c_kl := c_kl c; c_lam := map (fun k => (k, m)) ks ++ c_lam c |}.
+Fixpoint lam_l (l : list (N * N)) (k : N) : option N :=
+  match l with [] => None | (k', m) :: r => if k' =? k then Some m else lam_l r k end.
+Definition lam (c : crec) (k : N) : option N := lam_l (c_lam c) k.
+Fixpoint kcnt_l (tag k : N) (l : list (N * N)) : N :=
+  match l with
+  | [] => 0
+  | (t, k') :: r => (if (t =? tag) && (k' =? k) then 1 else 0) + kcnt_l tag k r
+  end.
+Definition kcnt (c : crec) (tag k : N) : N := kcnt_l tag k (c_kl c).
 Definition fb (c : crec) (f : fld) : bool := negb (cn c f =? 0).
 Definition incn (c : crec) (f : fld) : crec := setn c f (cn c f + 1).
 
@@ -97,14 +115,14 @@ Definition owner_crashed (s : sys) (T : N) : bool :=
 Inductive reason :=
 | R1_unprewritten | R1_ts_start | R1_ts_mincommit | R1_ts_tso | R1_secondary_first | R1_key_not_mutation
 | R2_rollback_after_commit | R2_commit_after_rollback
-| R3_resolve_unreported | R3_wrong_primary
+| R3_resolve_unreported | R3_wrong_primary | R3_csl_unlisted
 | R4_expire_live_lock
 | R5_hb_primary | R5_hb_ttl_decrease | R5_hb_ttl_age | R5_hb_after_end
 | R6_primary_mismatch | R6_primary_not_locked | R6_key_not_mutation | R6_async_secondaries | R6_onepc_split | R6_mutations_late
 | R7_ok_without_commit | R7_err_with_pending | R7_undet_without_pending | R7_send_after_told
-| X_crashed | N_no_send | N_no_deliver | N_dup_commitpoint | N_dup_reply | T_tso_order | T_begin_unissued
+| X_crashed | N_no_send | N_no_deliver | N_dup_commitpoint | N_dup_reply | N_dup_prewrite | T_tso_order | T_begin_unissued
 | S_prewrite_after_rollback | S_commit_impossible | S_rollback_committed | S_cts_committed | S_cts_rolledback
-| S_cts_locked | S_cts_secondary | S_csl_locks | S_onepc | S_gone.
+| S_cts_locked | S_cts_secondary | S_cts_async | S_cts_secs | S_csl_locks | S_csl_commit | S_onepc | S_gone | S_mincommit.
 Inductive res := Ok (s : sys) | Rej (r : reason).
 Notation "'chk' b 'else' r ; k" := (if b then k else Rej r) (at level 200, b at level 0, r at level 0, right associativity).
 
@@ -134,8 +152,9 @@ Fixpoint step_keys (s : sys) (T : N) (ks : list N) (tr : kstate -> option kstate
 
 Definition tr_pw (m : N) (v : kstate) : option kstate :=
   match v with
-  | Unlocked => Some (Locked m) | Locked m0 => Some (Locked (N.max m0 m))
-  | Committed c => Some (Committed c) | RolledBack => None
+  | Unlocked => Some (Locked m)
+  | Locked _ | Committed _ => Some v      (* the lock's min-commit ts never changes, see mc_consistent *)
+  | RolledBack => None
   end.
 Definition tr_1pc (o : N) (v : kstate) : option kstate :=
   match v with
@@ -153,20 +172,27 @@ Definition tr_rb (v : kstate) : option kstate :=
   match v with Committed _ => None | _ => Some RolledBack end.
 Definition tr_rs (c : N) (v : kstate) : option kstate :=
   match v with Locked _ => Some (alt_of c) | _ => Some v end.
-Definition tr_push (m : N) (v : kstate) : option kstate :=
-  match v with Locked m0 => Some (Locked (N.max m0 m)) | _ => Some v end.
+Definition tr_push (m : N) (v : kstate) : option kstate := Some v.
 Definition tr_cts_committed (c : N) (v : kstate) : option kstate :=
   match v with Committed c' => if c' =? c then Some v else None | _ => None end.
 Definition tr_cts_locked (m : N) (v : kstate) : option kstate :=
-  match v with Unlocked => Some v | Locked m0 => Some (Locked (N.max m0 m)) | _ => None end.
+  match v with Unlocked => Some v | Locked m0 => Some v | _ => None end.
 Definition tr_csl_lock (m : N) (v : kstate) : option kstate :=
-  match v with Locked m0 => Some (Locked (N.max m0 m)) | _ => None end.
+  match v with Locked m0 => Some v | _ => None end.
 Definition tr_csl_rb (v : kstate) : option kstate :=
   match v with Unlocked => Some RolledBack | _ => Some v end.
 Fixpoint step_csl_locks (s : sys) (T : N) (l : list (N * N)) : option sys :=
   match l with
   | [] => Some s
   | (k, m) :: r => match step_key s T k (tr_csl_lock m) with Some s' => step_csl_locks s' T r | None => None end
+  end.
+(* a reported min-commit ts agrees with the store: an async-commit lock keeps the min-commit ts it was
+   created with (0 = not an async-commit lock: no constraint), a committed key reports its commit ts *)
+Definition mc_consistent (s : sys) (T : N) (m k : N) : bool :=
+  match kget s T k with
+  | Locked m0 => (m0 =? 0) || (m0 =? m)
+  | Committed c => (m =? 0) || (m =? c)
+  | _ => true
   end.
 Definition gone_key (s : sys) (T k : N) : bool :=
   match kget s T k with
@@ -189,6 +215,16 @@ Definition commit_point_pw (c : crec) : bool := fb c FTriedA || fb c FTried1.
 Definition neg_ok (c : crec) : bool :=
   (cn c FPcOk =? 0) && ((cn c FPcNeg =? cn c FPcSent) || fb c FPcRb).
 Definition pw_all_answered (c : crec) : bool := (cn c FPwSent <=? cn c FPwRep) || fb c FPwErr.
+(* async commit / 1PC: some locked mutation can never be locked any more: every prewrite request sent
+   for it has been answered negatively (none sent at all included) *)
+Definition err_ok (c : crec) : bool :=
+  negb (fb c FHasm) || existsb (fun k => kcnt c KSent k =? kcnt c KNeg k) (c_lm c).
+(* every prewrite request sent has been answered *)
+Definition pw_closed (c : crec) : bool := forallb (fun k => kcnt c KSent k =? kcnt c KRep k) (c_all c).
+Definition async_cts (s : list event) (r T : N) (ks : list N) : bool :=
+  existsb (fun e => match e with
+                    | ECtsReply r' s' _ (StLocked _ _ true secs) => (r' =? r) && (s' =? T) && subset ks secs
+                    | _ => false end) s.
 
 Definition lock_keys (ms : list (N * op)) : list N :=
   map fst (filter (fun ko => match snd ko with OpCne => false | _ => true end) ms).
@@ -227,12 +263,13 @@ Definition step_pw_send (s : sys) (e : event) (r T p : N) (ks : list N) (async o
   let c := getc s T in
   chk (negb (crashed s r)) else X_crashed;
   chk (cn c FTold =? 0) else R7_send_after_told;
+  chk (negb (fb c FDead)) else R2_commit_after_rollback;
   chk (negb (fb c FHasm) || (p =? cn c FPrim)) else R6_primary_mismatch;
   chk (negb (fb c FHasm) || subset ks (c_all c)) else R6_key_not_mutation;
   chk (negb (fb c FHasm && async && mem p ks) ||
        (subset secs (c_lm c) && negb (mem p secs) && forallb (fun k => (k =? p) || mem k secs) (c_lm c))) else R6_async_secondaries;
   chk (negb (fb c FHasm && onepc) || subset (c_all c) ks) else R6_onepc_split;
-  let c := incn c FPwSent in
+  let c := add_kl (incn c FPwSent) KSent ks in
   let c := if async then setn c FTriedA 1 else setn c FFb 1 in
   let c := if onepc then setn c FTried1 1 else setn c FFb1 1 in
   Ok (setc (add_sent s e) T c).
@@ -242,7 +279,20 @@ Definition step_pw_deliver (s : sys) (r T : N) (ks : list N) (x : pw_res) : res 
   chk (match x with
        | PwOk _ o => (o =? 0) || sent_by s (fun e => match e with EPwSend _ s' _ _ _ true _ _ _ => s' =? T | _ => false end)
        | _ => true end) else S_onepc;
-  let s1 := add_dlv s (EPwReply r T ks x) in
+  let c := getc s T in
+  chk (negb (commit_point_pw c) || forallb (fun k => kcnt c KDlv k <? kcnt c KSent k) ks) else N_dup_prewrite;
+  chk (match x with
+       | PwOk m o => negb (commit_point_pw c && fb c FHasm && negb (m =? 0) && (o =? 0)) || existsb (fun k => mem k (c_lm c)) ks
+       | _ => true end) else S_mincommit;
+  chk (match x with PwOk m o => negb (o =? 0) || forallb (mc_consistent s T m) ks | _ => true end) else S_mincommit;
+  let c := add_kl c KDlv ks in
+  let c := match x with
+           | PwOk m o =>
+               let c := if o =? 0 then add_lam c (filter (fun k => match kget s T k with Unlocked => true | _ => false end) ks) m else c in
+               if commit_point_pw c && (o =? 0) && ((m =? 0) || fb c FTried1) then setn c FStFb 1 else c
+           | _ => add_kl c KNegD ks
+           end in
+  let s1 := setc (add_dlv s (EPwReply r T ks x)) T c in
   match x with
   | PwOk m o =>
       if o =? 0 then match step_keys s1 T ks (tr_pw m) with Some s' => Ok s' | None => Rej S_prewrite_after_rollback end
@@ -253,15 +303,19 @@ Definition step_pw_deliver (s : sys) (r T : N) (ks : list N) (x : pw_res) : res 
 Definition step_pw_reply (s : sys) (e : event) (r T : N) (ks : list N) (x : pw_res) : res :=
   chk (negb (crashed s r)) else X_crashed;
   chk (delivered s e) else N_no_deliver;
-  let c := incn (getc s T) FPwRep in
+  chk (match x with
+       | PwOk _ _ => true
+       | _ => negb (commit_point_pw (getc s T)) || forallb (fun k => kcnt (getc s T) KNeg k <? kcnt (getc s T) KNegD k) ks
+       end) else N_dup_reply;
+  let c := add_kl (incn (getc s T) FPwRep) KRep ks in
   let c := match x with
            | PwOk m o =>
                let c := add_pwok c ks in
                let c := setn c FMinc (N.max (cn c FMinc) m) in
                let c := if o =? 0 then setn (setn c FFb1 1) (if fb c FTried1 then FFb else FFb1) 1 else setn c F1pcTs o in
                if m =? 0 then setn c FFb 1 else c
-           | PwErr _ => setn c FPwErr 1
-           | PwRegion => c
+           | PwErr _ => setn (add_kl c KNeg ks) FPwErr 1
+           | PwRegion => add_kl c KNeg ks
            end in
   Ok (setc s T c).
 
@@ -274,6 +328,7 @@ Definition step_cm_send (s : sys) (e : event) (r T C : N) (ks : list N) : res :=
     chk (subset (c_lm c) (c_pwok c)) else R1_unprewritten;
     chk (T <? C) else R1_ts_start;
     chk (cn c FMinc <=? C) else R1_ts_mincommit;
+    chk (negb (async_kept c) || (C =? cn c FMinc)) else R1_ts_mincommit;
     chk (negb (fb c FCalled) || fb c FCausal || (cn c FWm <? C)) else R1_ts_tso;
     if mem (cn c FPrim) ks then Ok (setc (add_sent s e) T (incn c FPcSent))
     else chk ((cn c FPcOk =? C) || async_kept c) else R1_secondary_first;
@@ -316,7 +371,7 @@ Definition step_cm_reply (s : sys) (e : event) (r T C : N) (ks : list N) (x : cm
 Definition step_rb_send (s : sys) (e : event) (r T : N) (ks : list N) : res :=
   let c := getc s T in
   chk (negb (crashed s r)) else X_crashed;
-  chk (neg_ok c) else R2_rollback_after_commit;
+  chk (neg_ok c && (negb (commit_point_pw c) || err_ok c)) else R2_rollback_after_commit;
   Ok (setc (add_sent s e) T (setn c FDead 1)).
 
 Definition step_rb_deliver (s : sys) (r T : N) (ks : list N) (x : rb_res) : res :=
@@ -340,8 +395,17 @@ Definition step_cts_deliver (s : sys) (r T p : N) (st : cts_st) : res :=
   | StCommitted C => match step_key s1 T p (tr_cts_committed C) with Some s' => Ok s' | None => Rej S_cts_committed end
   | StRolledBack =>
       chk (negb (fb c FHasm && negb (p =? cn c FPrim) && match kget s T p with Locked _ => true | _ => false end)) else S_cts_secondary;
-      match step_key s1 T p tr_rb with Some s' => Ok s' | None => Rej S_cts_rolledback end
-  | StLocked _ m _ _ => match step_key s1 T p (tr_cts_locked m) with Some s' => Ok s' | None => Rej S_cts_locked end
+      (* an async-commit lock is rolled back by CheckTxnStatus only when forced to fall back to 2PC *)
+      let asyncl := match kget s T p with Locked m0 => negb (m0 =? 0) | _ => false end in
+      chk (negb asyncl || sent_by s (fun e => match e with ECtsSend r' s' p' _ _ _ true _ => (r' =? r) && (s' =? T) && (p' =? p) | _ => false end)) else S_cts_rolledback;
+      match step_key (if asyncl then setc s1 T (setn c FStFb 1) else s1) T p tr_rb with Some s' => Ok s' | None => Rej S_cts_rolledback end
+  | StLocked _ m a secs =>
+      chk (negb a || fb c FTriedA) else S_cts_async;
+      chk (negb a || match kget s T p with Locked m0 => (m0 =? 0) || (m0 =? m) | _ => false end) else S_cts_locked;
+      chk (negb (a && fb c FHasm) || (p =? cn c FPrim)) else S_cts_secondary;
+      chk (negb (a && fb c FHasm) ||
+           (subset secs (c_lm c) && negb (mem p secs) && forallb (fun k => (k =? p) || mem k secs) (c_lm c))) else S_cts_secs;
+      match step_key s1 T p (tr_cts_locked m) with Some s' => Ok s' | None => Rej S_cts_locked end
   | _ => Ok s1
   end.
 
@@ -349,8 +413,20 @@ Definition step_csl_deliver (s : sys) (r T : N) (ks : list N) (st : csl_st) : re
   chk (sent_by s (fun e => match e with ECslSend r' s' ks' => (r' =? r) && (s' =? T) && leqb ks' ks | _ => false end)) else N_no_send;
   let s1 := add_dlv s (ECslReply r T ks st) in
   match st with
-  | CslLocks l => match step_csl_locks s1 T l with Some s' => Ok s' | None => Rej S_csl_locks end
-  | CslCommit C => if C =? 0 then match step_keys s1 T ks tr_csl_rb with Some s' => Ok s' | None => Rej S_csl_locks end else Ok s1
+  | CslLocks l =>
+      chk (forallb (fun k => existsb (fun km => fst km =? k) l) ks) else S_csl_locks;
+      chk (forallb (fun km => match kget s T (fst km) with Locked m0 => (m0 =? 0) || (m0 =? snd km) | _ => false end) l) else S_csl_locks;
+      match step_csl_locks s1 T l with Some s' => Ok s' | None => Rej S_csl_locks end
+  | CslCommit C =>
+      if C =? 0 then
+        chk (existsb (gone_key s T) ks) else S_csl_commit;
+        match step_keys s1 T ks tr_csl_rb with Some s' => Ok s' | None => Rej S_csl_locks end
+      else
+        chk (existsb (fun k => match kget s T k with
+                               | Committed c' => c' =? C
+                               | Locked _ => existsb (fun sc => (fst sc =? T) && (snd sc =? C)) (s_wr s)
+                               | _ => false end) ks) else S_csl_commit;
+        Ok s1
   | CslRegion => Ok s1
   end.
 
@@ -360,7 +436,7 @@ Definition step_rs_send (s : sys) (e : event) (r T C : N) : res :=
   match just_cts s r T C with
   | Some p => chk (negb (fb c FHasm) || (p =? cn c FPrim)) else R3_wrong_primary;
               Ok (w_rs (add_sent s e) ((T, C, JKey p) :: s_rs s))
-  | None => chk (csl_missing s r T C || csl_all_locked s r T C) else R3_resolve_unreported;
+  | None => chk ((csl_missing s r T C && async_cts (s_cts s) r T []) || csl_all_locked s r T C) else R3_resolve_unreported;
             Ok (w_rs (add_sent s e) ((T, C, JAsync) :: s_rs s))
   end.
 
@@ -390,9 +466,9 @@ Definition step_told (s : sys) (T : N) (t : told_res) : res :=
   chk (cn c FTold =? 0) else R7_send_after_told;
   match t with
   | TOk => chk (negb (cn c FPcOk =? 0) || negb (cn c F1pcTs =? 0) ||
-                (async_kept c && fb c FHasm && subset (c_lm c) (c_pwok c))) else R7_ok_without_commit;
+                (async_kept c && fb c FHasm && subset (c_lm c) (c_pwok c) && pw_closed c)) else R7_ok_without_commit;
            Ok (setc s T (setn c FTold 1))
-  | TErr => chk (neg_ok c && (negb (commit_point_pw c) || pw_all_answered c) && (cn c F1pcTs =? 0)) else R7_err_with_pending;
+  | TErr => chk (neg_ok c && (negb (commit_point_pw c) || err_ok c) && (cn c F1pcTs =? 0)) else R7_err_with_pending;
             Ok (setc s T (setn (setn c FTold 3) FDead 1))
   | TUndet => chk ((cn c FPcRep <? cn c FPcSent) || (commit_point_pw c && (cn c FPwRep <? cn c FPwSent))) else R7_undet_without_pending;
               Ok (setc s T (setn (setn c FTold 2) FDead 1))
@@ -443,7 +519,10 @@ Definition stepr (s : sys) (e : event) : res :=
   | ECtsDeliver r T p st => step_cts_deliver s r T p st
   | ECtsReply r _ _ _ =>
       chk (negb (crashed s r)) else X_crashed; chk (delivered s e) else N_no_deliver; Ok (w_cts s (e :: s_cts s))
-  | ECslSend r _ _ => plain_send s e r
+  | ECslSend r T ks =>
+      chk (negb (crashed s r)) else X_crashed;
+      chk (async_cts (s_cts s) r T ks) else R3_csl_unlisted;
+      Ok (add_sent s e)
   | ECslDeliver r T ks st => step_csl_deliver s r T ks st
   | ECslReply r _ _ _ =>
       chk (negb (crashed s r)) else X_crashed; chk (delivered s e) else N_no_deliver; Ok (w_csl s (e :: s_csl s))
